@@ -3,7 +3,7 @@ import os
 import re
 import warnings
 from harness.common import facts as F
-from harness.c03 import c03facts
+from harness.c03 import c03facts, translate
 
 ID = 'C03'
 HERE = os.path.dirname(os.path.abspath(__file__))
@@ -77,6 +77,12 @@ def facts(src):
     summary.update({'max_order': v['max_order'], 'weight': v['weight'], 'order_of': v['order_of'],
                     'score_step': v['score_step'], 'pred_names': v['pred_names'],
                     'find_view_types': v['find_view_types'], 'accept_order': v['accept_order']})
+    # the control flow of the lookup / make / predicate bodies, regenerated from the source (harness/c03/translate.py)
+    from harness.common import build as B
+    gen, tproblems, tsummary = translate.translate_tree(src)
+    problems += tproblems
+    B.write_if_changed(os.path.join(B.COQ, 'Gen', 'Facts_C03_gen.v'), gen)
+    summary['translated'] = tsummary
     return {'coq': c03facts.emit(v), 'summary': summary, 'problems': problems}
 
 
@@ -749,10 +755,12 @@ def to_wire(case):
 
 
 def from_wire(case, raw):
-    if raw == [['bad']] or not (isinstance(raw, list) and len(raw) == 2):
+    if raw == [['bad']] or not (isinstance(raw, list) and len(raw) == 3):
         return {'model': ['MODEL-BAD', raw], 'spec': None}
-    mades, per = raw
-    model = [mades, [p[0] for p in per]]
+    gmades, mades, per = raw
+    model = [gmades, [p[0] for p in per]]           # the answers of the program regenerated from the source
+    if gmades != mades or any(p[0] != p[6] for p in per):
+        model = ['REGENERATED-PROGRAM-DIFFERS-FROM-REFERENCE-MODEL', model, [mades, [p[6] for p in per]]]
     return {'model': model, 'spec': [[sorted(p[1]), sorted(p[2]), sorted(p[3]), sorted(p[4]), p[5]] for p in per]}
 
 
